@@ -53,7 +53,7 @@ func VerifH_wire4_free() {
 	vnd.Assert(len(req.ClientIPAddr) == 4 && len(req.YourIPAddr) == 4 && len(req.ServerIPAddr) == 4 && len(req.GatewayIPAddr) == 4, "C01 parsed address fields are 4 bytes")
 	vnd.Assert(len(req.ClientHWAddr) <= 16 && cap(req.ClientHWAddr) >= 16, "C01 parsed chaddr is at most 16 bytes over a 16-byte array")
 	vnd.Assert(req.Options != nil, "C01 parsed options map exists")
-	vnd.Assert(!vnd.SharesMemory(req, buf), "C16 the parsed DHCPv4 message does not alias the receive buffer")
+	vnd.AssertEngine(!vnd.SharesMemory(req, buf), "C16 the parsed DHCPv4 message does not alias the receive buffer")
 }
 
 // VerifH_wire6_free: the real dhcpv6.FromBytes on k symbolic bytes.
@@ -201,7 +201,7 @@ func VerifH_e2e6() {
 
 	vnd.Cover("handled")
 	vnd.Assert(len(sent) <= 1, "C01 at most one reply per datagram")
-	vnd.Assert(vnd.HeldLocks() == 0, "C01 no lock is left held")
+	vnd.AssertEngine(vnd.HeldLocks() == 0, "C01 no lock is left held")
 	if len(sent) == 1 {
 		vnd.Cover("replied")
 	}
